@@ -840,8 +840,9 @@ func (env *Env) evalIndex(e *SIndex) (Val, error) {
 			return Val{T: strAt(x.T, i.T), Typ: types.Typ[types.Uint8]}, nil
 		}
 	case *types.Map:
-		_, v := env.fr.mapLookup(env.st, xt, x.T, i.T)
-		return Val{T: v, Typ: xt.Elem()}, nil
+		// m[k] in a spec has Go's meaning: the zero value when the key is absent
+		has, v := env.fr.mapLookup(env.st, xt, x.T, i.T)
+		return Val{T: tIte(has, v, te.Zero(xt.Elem())), Typ: xt.Elem()}, nil
 	case *types.Array:
 		if x.Loc != nil && x.Loc.Kind == "obj" {
 			loc := te.ElemLoc(xt.Elem(), x.Loc.Base, i.T)
